@@ -288,6 +288,9 @@ fn place_json<'tcx>(tcx: TyCtxt<'tcx>, body: &Body<'tcx>, p: &Place<'tcx>) -> J 
         let mut projs = vec![];
         let mut pty = mir::PlaceTy::from_ty(body.local_decls[p.local].ty);
         for elem in p.projection.iter() {
+            if matches!(elem, ProjectionElem::Deref) && pty.ty.is_raw_ptr() {
+                j.set("rawderef", J::bool(true));
+            }
             let e = match elem {
                 ProjectionElem::Deref => J::str("*"),
                 ProjectionElem::Field(f, fty) => {
@@ -689,6 +692,11 @@ fn dump_body<'tcx>(tcx: TyCtxt<'tcx>, did: DefId, body: &Body<'tcx>, j: &mut J) 
                             }
                         }
                         t.set("krate", J::str(tcx.crate_name(cdid.krate).as_str()));
+                        if matches!(tcx.def_kind(*cdid), DefKind::Fn | DefKind::AssocFn)
+                            && tcx.fn_sig(*cdid).skip_binder().safety().is_unsafe()
+                        {
+                            t.set("callee_unsafe", J::bool(true));
+                        }
                         // Send/Sync facts for the pointee of Arc operations
                         if path.starts_with("std::sync::Arc::") || path.starts_with("alloc::sync::Arc::") {
                             if let Some(x) = cargs.types().next() {
